@@ -20,6 +20,7 @@ def one_walk(job):
     w = None
     try:
         w = Walk(job['paths'], ck, job['seed'], d, backend=job['backend'], cfg=job['cfg'], weights=job['weights'], new_exec=make_new_exec(job['paths'], ck), ntok=job.get('ntok', 2), max_sessions=job.get('max_sessions', 5))
+        if job['backend'] == 'db': w.weights.pop('copy', None)   # C_CopyObject on the db back-end keeps only CKA_CLASS (open known finding of C05/C08/C20): the copy would not be the object the model thinks it is
         hook = job.get('hook')
         if hook: hook(w, job, part)
         else: w.run(job['steps'], monitors=job['monitors'], stop_on=set(job['props']) | {'MODEL'})
